@@ -82,11 +82,21 @@ def run(chk, tier):
 
 
 def composites(chk, tier, rng):
-    """random composite programs: Kinds.tla in oracle mode gives the verdict; permutations and renamings must not change the real one"""
+    """random composite programs and the recursion families: Kinds.tla in oracle mode gives the verdict; permutations and
+    renamings must not change the real one"""
     import gen
     import oracle
     import render
     ps = gen.programs(common.seed() * 1000 + 7, 500 if tier == "quick" else 6000, p_bad=0.02)
+    # dependency graphs over two declarations of every kind (cycles with and without a schema to cut at, side by side) and
+    # the recursive instantiations: the verdict includes the well-formedness of recursion
+    for famname in ("recgraphs2", "recinst"):
+        rf = run_tlc("DenMC", "Prog_%s.cfg" % famname, workers=4, timeout=900, java_opts=["-Xss512m"])
+        chk.add_tlc(rf)
+        fam = [c["prog"] for c in rf.cases]
+        if tier == "quick" and len(fam) > 400:
+            fam = rng.sample(fam, 400)
+        ps = ps + fam
     rps = [render.render_program(p, style=i % 4) for i, p in enumerate(ps)]
     oracle.crosscheck(ps, rps)
     ks, rs = oracle.kinds(ps, chunk=500)
@@ -96,7 +106,7 @@ def composites(chk, tier, rng):
     for i, (p, rp) in enumerate(zip(ps, rps)):
         cases.append({"main": rp["main"], "files": rp["files"], "want": {}})
         meta.append((i, "original"))
-        for q in progs.permutations_of(p, limit=3, rng=rng)[:2]:
+        for q in progs.permutations_of(p, limit=6, rng=rng)[:5]:
             cases.append(progs.harness_case(q, style=0)[0])
             meta.append((i, "permuted"))
         cases.append(progs.harness_case(progs.rename_consistently(p), style=0)[0])
